@@ -596,7 +596,10 @@ def rule_OP(run: Run) -> RuleResult:
                     ok = False
             if e.kind == "call" and e.text == "zip":
                 saw_zip = True
-                if [a.key() for a in e.args] != ["dictkeys(Child(iterables))", f"elem({PROD})"]:
+                ks_ = [a.key() for a in e.args]
+                while ks_ and ks_[0].startswith(("tuple(", "list(")) and ks_[0].endswith(")"):
+                    ks_[0] = ks_[0][ks_[0].index("(") + 1:-1]      # the keys gathered into a tuple / list first: same keys, same order
+                if ks_ != ["dictkeys(Child(iterables))", f"elem({PROD})"]:
                     ok = False
     ok = ok and saw_zip
     res.add("labrea.iterable.Map._iterate_over_options:keys zipped with the product over the same mapping", ok, mp.module.relpath, fn.lineno,
@@ -1208,7 +1211,21 @@ def rule_RG(run: Run) -> RuleResult:
         return False
     registering = {h_.node.name for h_ in helpers if _has(h_, lambda n_: any(astu.short_name(c) == "register" for c in astu.calls_in(n_)))}
     raising = {h_.node.name for h_ in helpers if _has(h_, lambda n_: any(isinstance(x, ast.Raise) for x in ast.walk(n_)))}
-    ctx.no_inline = ({h_.node.name for h_ in helpers} - registering) | {"lift"}
+    # a helper that only packs what the others computed into private records (no raise of its own) is read through, so that the fields
+    # read back from the records are the terms they were built from
+    def _packs_records(h_) -> bool:
+        if any(isinstance(x, ast.Raise) for x in ast.walk(h_.node)):
+            return False
+        for c_ in astu.calls_in(h_.node):
+            if isinstance(c_.func, ast.Name):
+                r_ = repo.resolve_name(h_.module, c_.func.id)
+                if r_ and r_[0] == "class" and r_[1].name.startswith("_") and r_[1].find_method("__init__") is None and (
+                        "NamedTuple" in [b.split(".")[-1] for b in r_[1].external_bases()]
+                        or any(ast.unparse(d).split("(")[0].split(".")[-1] == "dataclass" for d in r_[1].node.decorator_list)):
+                    return True
+        return False
+    packing = {h_.node.name for h_ in helpers if _packs_records(h_)}
+    ctx.no_inline = ({h_.node.name for h_ in helpers} - registering - packing) | {"lift"}
     ps = analyse_method(ctx, im, "__init__")
     res.count("paths", len(ps))
     # private methods of other classes that register on behalf of their caller (``member._register_all(aliases, overload)``):
